@@ -1,7 +1,7 @@
 import re
 
 from ckl.errors import CklSyntaxError
-from ckl.lexer import Lexer, SourcePos
+from ckl.lexer import Lexer, SourcePos, without_digit_limit
 
 from ckl.values import (
     ValueBoolean,
@@ -1028,10 +1028,7 @@ def parse_primary_expr(lexer, unary_minus=False):
         result = NodeLiteral(ValueString(token.value), token.pos)
         result = deref_or_invoke(lexer, result)
     elif token.type == "int":
-        try:
-            intvalue = int(token.value)
-        except ValueError:
-            raise CklSyntaxError("Int literal is too long", token.pos)
+        intvalue = without_digit_limit(int, token.value)
         result = NodeLiteral(
             ValueInt(intvalue * (-1 if unary_minus else 1)),
             token.pos,
